@@ -103,9 +103,13 @@ def _parse_tuple(body):
     return json.loads("[" + body + "]")
 
 
+# a loaded machine must not turn a long job into a tool error: budgets are generous, the thorough tier's three times more so
+TIMEOUT_FACTOR = float(os.environ.get("SFV_TIMEOUT_FACTOR", "2"))
+
 def run_tlc(module, cfg, env, wd, workers=8, timeout=1500, heap="4g", simulate=None, extra=None, dfs=False):
     """Run TLC on spec/<module>.tla with spec/<cfg>; returns dict(out, viol, known, tally, states, distinct)."""
     ensure_java()
+    timeout = int(timeout * TIMEOUT_FACTOR)
     global _meta_seq
     with _build_lock:
         _meta_seq += 1
@@ -216,6 +220,9 @@ class Run:
         self.lock = threading.RLock()
         self.pending = []
         self.prop, self.tier, self.level = prop, tier, level
+        if tier == "thorough":
+            global TIMEOUT_FACTOR
+            TIMEOUT_FACTOR = float(os.environ.get("SFV_TIMEOUT_FACTOR", "6"))
         self.seed = int(os.environ.get("VERIF_SEED", "0") or 0)
         self.t0 = time.time()
         self.wd = workdir(prop)
